@@ -250,7 +250,7 @@ mod verif_l2_amend {
             keep_heading(o, n);
             if tc >= 5 && tc <= 8 {
                 assert!(n.track == r.track, "TC5-8: track = record ground track");
-                assert!(n.track_source == ' ' || n.track_source == '\u{2070}', "TC5-8: track source mark");
+                assert!(n.track_source == r.track_source.unwrap_or(' '), "TC5-8: track source mark of the record");
                 assert!(n.grspeed == o.grspeed, "frame clause: ground speed unchanged");
             } else {
                 keep_velocity(o, n);
